@@ -350,7 +350,7 @@ class History:
                 return
             tags, _ = _diff(a1, a2)
             new = {t for t in loaded1 - loaded0}
-            if all(t in new or t == "head" for t in tags):
+            if all(t in new or t in ("head", "hhea", "vhea", "maxp", "loca", "OS/2") for t in tags):
                 self.acc.exclude("b:second-save-compared-from-2nd:save-decompiled-a-passed-through-table")
                 x, y = a2, a3
         if x != y:
